@@ -2,18 +2,26 @@
 H = "harness/C01_fsg_search.c"
 GROUPS = [
     dict(name="fsg_seg_bp2itor", harness=H, enforce="fsg_seg_bp2itor", replace=["fsg_history_entry_get"], min_postconditions=6),
+    dict(name="search_module_forward", harness="harness/C03_frames.c", enforce="search_module_forward", replace=["acmod_advance"], defines=["VERIF_ENFORCE_FORWARD"],
+         loop_contracts=True, loops=["search_module_forward.frames"], allow_no_body=["*"], min_postconditions=2),
+    dict(name="decoder_process_int16_count", harness="harness/C03_frames.c", entry="h_decoder_process_int16", enforce="decoder_process_int16",
+         replace=["search_module_forward", "acmod_process_raw", "acmod_set_grow"], loop_contracts=True, loops=["decoder_process_int16.chunks"], allow_no_body=["*"], min_postconditions=2,
+         drop_flags=["--signed-overflow-check"], flags=["--no-signed-overflow-check"]),
 ]
 
 ASSUMPTIONS = [
     "history table seen through the ghost-cell view (assumed accessor contract, element invariant as in C01)",
     "frame monotonicity entry(pred).frame <= entry.frame and the score range [-0x30000000, 0x30000000] are preconditions of fsg_seg_bp2itor (producer-side invariants, not proved here)",
+    "search_module_forward: the search step is a stub reached through the v-table that counts itself (ghost verif_steps); acmod_advance is replaced by its contract, which C07 proves",
+    "decoder_process_int16: acmod_process_raw and acmod_set_grow are assumed contracts; search_module_forward is replaced by its summary (returns the frames it searched and adds them to the ghost total), whose relation to the enforced contract (ret == frames queued, all searched) is by inspection; signed overflow of the running total (2^31 frames) is not checked",
 ]
 HAND_LEMMAS = [
     "tiling: consecutive segments are hist[i] = pred(hist[i+1]); from the per-segment postcondition sf == pred.frame + 1 (clamped to ef for zero-length null arcs) and ef == frame, segment i+1 starts on the frame after segment i ends; the first has pred 0 (frame -1) hence sf == 0",
     "telescoping: ascr + lscr == score - pred.score per segment sums to entry(last).score - entry(0).score == the score find_exit reports (entry(0).score == 0)",
+    "frames searched == frames the front end produced: search_module_forward searches every queued frame exactly once (proved), decoder_process_int16 returns the sum over its rounds (proved); that the queue receives every front-end frame is the acmod ring discipline (C07, reader side only)",
 ]
-NOT_COVERED = ["fsg_search_seg_iter backtrace loop (order of hist[])", "frame counters in decoder_process_* / search_module_forward (seeded change C03_B is not detected)", "hypothesis string vs. segment words"]
+NOT_COVERED = ["fsg_search_seg_iter backtrace loop (order of hist[])", "decoder_process_float32 (same loop, not annotated) and decoder_end_utt's final forward", "hypothesis string vs. segment words", "front-end frame count (C06)"]
 CLAIM = dict(
-    text="fsg_seg_bp2itor, the function that turns one history entry into a segment, is proved for all entries (loop-free, full domain): ef is the entry's frame, sf is the frame after its predecessor's (a zero-length marker for null arcs), lscr is the shifted arc probability and ascr + lscr equals the path-score difference to the predecessor. Tiling and score additivity of a whole segmentation follow by two hand lemmas (induction along the backtrace); frame-count bookkeeping in decoder.c is not covered.",
-    note="assumed: ghost-cell history view, frame monotonicity and score range as preconditions; hand lemmas for tiling/telescoping; decoder frame counters not covered",
-    technique="CBMC function contract enforced with goto-instrument --dfcc (loop-free, full domain), callee replaced by contract")
+    text="fsg_seg_bp2itor, the function that turns one history entry into a segment, is proved for all entries (loop-free, full domain): ef is the entry's frame, sf is the frame after its predecessor's (a zero-length marker for null arcs), lscr is the shifted arc probability and ascr + lscr equals the path-score difference to the predecessor. Frame counters: search_module_forward is proved (loop invariant + termination) to search every queued frame exactly once, in order, advancing the decoder's frame count by the number it returns; decoder_process_int16 is proved to return the total searched over all its internal rounds. Tiling and score additivity of a whole segmentation follow by two hand lemmas (induction along the backtrace).",
+    note="assumed: ghost-cell history view, frame monotonicity and score range as preconditions, acmod_process_raw; hand lemmas for tiling/telescoping; float32 entry point and seg_iter loop not covered",
+    technique="CBMC function + loop contracts enforced with goto-instrument --dfcc, callees replaced by contracts, ghost counters")
